@@ -181,6 +181,11 @@ static bool body_call(const Case &cs, Ctx &ctx)
         // the property under test is about the call that follows)
         Cfg w = c; w.kind = (int)(c.warm & 3) % 3; w.dst = 0; w.buf = 0; w.nphase = 3; w.nblock = 1; w.ncols = 1 + (c.warm >> 2) % 2; w.dmode = 0;
         w.ln = (int)((c.warm >> 4) % (uint64_t)(c.lm + 1)); w.le = w.kind == K_EXT ? w.ln + (int)((c.warm >> 8) % 2) : w.ln;
+        if ((c.warm >> 9) & 1) { // same shape as the call under test, but another column blocking / phase split / scratch choice
+            if (c.ln != SIZE0) { w.ln = c.ln; w.le = w.kind == K_EXT ? std::max(c.le, c.ln) : c.ln; }
+            if (c.ncols) w.ncols = c.ncols;
+            static const uint64_t NB[] = {0, 2, 3, 8, UINT64_MAX, 1}; w.nblock = NB[(c.warm >> 10) % 6]; w.nphase = 1 + (c.warm >> 13) % 4; w.buf = (int)((c.warm >> 15) & 1);
+        }
         run_call(g, w, false);
         ctx.nt(w.kind == K_EXT ? "cfg:object-used-before(extendPol)" : "cfg:object-used-before(NTT/INTT)");
     }
@@ -262,7 +267,7 @@ static rc::Gen<std::vector<uint64_t>> gen_call(int kindsel /* -1 any of 0..4, el
         uint64_t dseed = *g::uni64();
         uint64_t nphase2 = *rc::gen::elementOf(std::vector<uint64_t>(PHASES, PHASES + 12));
         uint64_t nblock2 = *rc::gen::elementOf(std::vector<uint64_t>(BLOCKS, BLOCKS + 9));
-        uint64_t warm = *rc::gen::weightedOneOf<uint64_t>({{3, rc::gen::just<uint64_t>(0)}, {1, g::range(1, 0xFFF)}});
+        uint64_t warm = *rc::gen::weightedOneOf<uint64_t>({{3, rc::gen::just<uint64_t>(0)}, {1, g::range(1, 0xFFFF)}});
         return std::vector<uint64_t>{(uint64_t)kind, (uint64_t)lm, (uint64_t)ln, (uint64_t)le, ncols, nphase, nblock, (uint64_t)dst, (uint64_t)buf, (uint64_t)nth, dmode, dseed, nphase2, nblock2, warm};
     });
 }
@@ -319,7 +324,7 @@ static std::vector<std::vector<uint64_t>> &enum_space(int kind)
                                         uint64_t seed = pbt::mix(ctr, lm * 1000 + ln * 10 + kind);
                                         uint64_t dmode = (ctr % 4 == 3) ? 1 : 0;
                                         sp.push_back({(uint64_t)kind, (uint64_t)lm, (uint64_t)lnn, (uint64_t)(ln < 0 ? 0 : ln + de), ncols, nphase, nblock, (uint64_t)dst, (uint64_t)buf, (uint64_t)nth, dmode, seed, PHASES[(ctr * 7) % 12], blocks[(ctr * 3) % blocks.size()],
-                                                      (ctr % 5 == 4) ? 1 + (seed & 0xFFF) : 0});
+                                                      (ctr % 5 == 4) ? 1 + (seed & 0xFFFF) : 0});
                                         ctr++;
                                     }
                                 }
